@@ -39,6 +39,8 @@ RDATA: List[Dict[str, Any]] = (
         (0, 0, 80, 'H.LOCAL.'), (0, 0, 80, 'g.local.')]]
     + [{'k': 'HINFO', 'cpu': c, 'os': o} for c in ('c', 'C') for o in ('o', 'p')]
     + [{'k': 'NSEC', 'next': n, 'types': t} for n in ('a.local.', 'b.local.') for t in ([1], [28], [1, 28], [28, 1])]      # the type list is a set: order is not rdata
+    # (types beyond 255 live in a second bitmap window: a decoded NSEC record may list them, and they are rdata like the others)
+    + [{'k': 'NSEC', 'next': 'a.local.', 'types': t} for t in ([1, 28, 257], [1, 28, 256], [257])]
 )
 KIND_TYPE = {'A': 1, 'CNAME': 5, 'PTR': 12, 'HINFO': 13, 'TXT': 16, 'AAAA': 28, 'SRV': 33, 'NSEC': 47}
 QTYPES = [12, 1, 255]
@@ -246,7 +248,7 @@ def wide_pair(draw) -> Dict[str, Any]:
                 if how == 0:
                     b['types'] = list(reversed(b['types'])) if len(b['types']) > 1 else [28, 12, 1]     # same set, other order (or another set)
                 elif how == 1:
-                    b['types'] = sorted(set(b['types']) ^ {draw(st.integers(1, 255))}) or [1]
+                    b['types'] = sorted(set(b['types']) ^ {draw(st.one_of(st.integers(1, 255), st.sampled_from([256, 257, 511, 512, 65535])))}) or [1]
                 else:
                     b['next'] = draw(st.sampled_from(names))
             elif k == 'Q':
